@@ -7,7 +7,7 @@
 // rsm.SnapshotValidator (that is part `stream`, package rsm).
 //
 // Sender side: real snapshot files (rsm.NewSnapshotWriter + compressor) with 0,
-// 1 or 2 external files split by the real splitSnapshotMessage/loadChunkData,
+// 1 or 2 external files sent by the real Transport.SendSnapshot (shim transport_send_export.go),
 // and real rsm.ChunkWriter streams collected by a queueing sink. The bytes of
 // the MAIN snapshot file carried by the stream are modified (every single-bit
 // flip, every truncation point, every 1-byte deletion / duplication), put back
@@ -189,14 +189,10 @@ func c14tBuild(cfg c14tCfg, hdr []byte) c14tStream {
 			ss.Files = append(ss.Files, sf)
 		}
 		m := pb.Message{Type: pb.InstallSnapshot, From: c14tFrom, To: c14tReplica, ShardID: c14tShard, Snapshot: ss}
-		chunks, err := splitSnapshotMessage(m, fs)
+		// the real Transport.SendSnapshot over a recording plug-in transport
+		chunks, err := VerifSendSnapshot(m, c14tDid, fs)
 		c14tMust(err)
-		buf := make([]byte, snapshotChunkSize)
 		for _, c := range chunks {
-			c.DeploymentId = c14tDid
-			data, err := loadChunkData(c, buf, fs)
-			c14tMust(err)
-			c.Data = data
 			st.chunks = append(st.chunks, c14tWire(c))
 		}
 	}
